@@ -49,7 +49,8 @@ func taintContext(variant int) pongo2.Context {
 		"zero":      0,
 		"flag":      variant%2 == 0,
 		"ratio":     2.5,
-		"title":     taint("title") + " two words",
+		// URL- and mail-shaped text, so that urlize / urlizetrunc take their link-building paths
+		"title":     taint("title") + " two words http://example.com/a?b=1&c=" + taint("url") + " www.example.org/x admin@example.com",
 		"empty":     "",
 		"html":      taint("html"),
 		"obj":       c02Obj{Name: taint("objname"), Count: variant, Tags: []string{taint("tag1"), taint("tag2")}, Any: taint("objany")},
